@@ -779,7 +779,8 @@ class C04(Prop):
     def _race(self, stores, k, a_line, b_line):
         """Run call A in this thread; just before its k-th acquisition of a lock of any store, call B runs to completion in a
         thread of its own (started and joined: B wins the race for the lock).  If A never makes a k-th acquisition, B runs after
-        A has returned.  A B that cannot finish while A is parked (A holds what B needs) is reported as `deadlock`."""
+        A has returned.  If B cannot finish while A is parked (A holds what B needs) A goes on with bounded waits: when A in turn
+        needs what B holds, A is reported as `deadlock`; a B that has not returned in the end is `deadlock` too."""
         lock_types = (type(threading.Lock()), type(threading.RLock()))
         st = {"n": 0, "fired": False, "rb": None, "thread": None}
         me = threading.get_ident()
@@ -798,8 +799,9 @@ class C04(Prop):
             th.start()
             th.join(10 if _Watchdog.hangs == 0 else 0.75)   # a starved thread on a loaded machine is not a deadlock
             if th.is_alive():
+                # B waits for something A holds while parked.  Not yet a deadlock: A goes on (with bounded waits); if A then
+                # needs what B holds nobody can move (`deadlock` for A), otherwise B simply finishes after A
                 _Watchdog.hangs += 1
-                st["rb"] = "deadlock"
 
         class Hook:
             def __init__(h, real):
@@ -848,8 +850,10 @@ class C04(Prop):
                 ra = f"raise:{type(e).__name__}"
             if not st["fired"]:
                 fire()
-            elif st["thread"] is not None and st["thread"].is_alive():
+            if st["thread"] is not None and st["thread"].is_alive():
                 st["thread"].join(10)
+                if st["thread"].is_alive():
+                    st["rb"] = "deadlock"
         finally:
             for s_, name, v in swapped:
                 setattr(s_, name, v)
